@@ -280,11 +280,11 @@ def dStep (g : Geom) (d : Dict V) : Op V → Dict V × Obs V
   | .maskLinear => (d, .blist (dMaskFlat g d))
   | .has i =>
     match unravel? g.shape i with
-    | none => (d, .err .value)
+    | none => (d, .err .index)          -- `check_linear_index` (repaired, DF-C07-linear; was `ValueError` of `np.unravel_index`)
     | some E => (d, .bool (alook d E).isSome)
   | .at i =>
     match unravel? g.shape i with
-    | none => (d, .err .value)
+    | none => (d, .err .index)
     | some E =>
       match alook d E with
       | none => (d, .err .missing)
@@ -326,11 +326,15 @@ def fStep (g : Geom) (f : Files V) : Op V → Files V × Obs V
   | .toArray s => (f, fToArray g f s)
   | .mask => (f, .bools g.shape (fMaskLinear g f))
   | .maskLinear => (f, .blist (fMaskLinear g f))
-  | .has i => (f, .bool (if 0 ≤ i then (alook f i.toNat).isSome else false))
+  | .has i =>
+    -- `check_linear_index` (repaired, DF-C07-linear; the pinned code answered `False` for every index without a file)
+    if 0 ≤ i ∧ i < (prod g.shape : Nat) then (f, .bool (alook f i.toNat).isSome) else (f, .err .index)
   | .at i =>
-    match (if 0 ≤ i then alook f i.toNat else none) with
-    | none => (f, .err .missing)
-    | some el => (f, .scalar (.whole el))
+    if 0 ≤ i ∧ i < (prod g.shape : Nat) then
+      match alook f i.toNat with
+      | none => (f, .err .missing)
+      | some el => (f, .scalar (.whole el))
+    else (f, .err .index)
   | .persistReopen => (f, .unit)     -- the files are the state; a new object on the folder sees them
 
 /-! ### specification: a masked n-d object array -/
@@ -347,8 +351,8 @@ def aToArray (g : Geom) (a : MArr V) (s : Option Bool) : Obs V :=
 
 def aMaskFlat (g : Geom) (a : MArr V) : List Bool := (allIdx g.shape).map (fun E => (a E).isNone)
 
-/-- The reference array. Linear indices outside `0 ≤ i < size` are outside the property (`Op.InDomain`);
-    the specification answers `IndexError` there, like `ndarray.flat[i]`. -/
+/-- The reference array. Linear indices outside `0 ≤ i < size` answer `IndexError`, like `ndarray.flat[i]`; since the
+    DF-C07-linear repair every back end does the same (`C07_refines_all_indices`), so `Op.InDomain` is no longer needed. -/
 def aStep (g : Geom) (a : MArr V) : Op V → MArr V × Obs V
   | .dump key v =>
     match dumpTargets g key with
@@ -384,5 +388,161 @@ def Op.InDomain (g : Geom) : Op V → Prop
   | .has i => 0 ≤ i ∧ i < (prod g.shape : Nat)
   | .at i => 0 ≤ i ∧ i < (prod g.shape : Nat)
   | _ => True
+
+
+/-! ## Extension (round 2) -/
+
+/-! ### linear indices on the pinned tree (before the DF-C07-linear repair); kept for the witnesses in `Props/C07Ext` -/
+
+/-- `DictArray.has_index` of the pinned tree (`_dict.py:57-60`): `np.unravel_index` raised `ValueError` outside the array -/
+def dHasPinned (g : Geom) (d : Dict V) (i : Int) : Obs V :=
+  match unravel? g.shape i with
+  | none => .err .value
+  | some E => .bool (alook d E).isSome
+
+/-- `FileArray.has_index` of the pinned tree (`_file.py:90-92`): `is_file()` of a name that is never written → `False` -/
+def fHasPinned (_g : Geom) (f : Files V) (i : Int) : Obs V :=
+  .bool (if 0 ≤ i then (alook f i.toNat).isSome else false)
+
+/-- `FileArray.get_from_index` of the pinned tree: `FileNotFoundError`, the same answer as for an unwritten element -/
+def fAtPinned (_g : Geom) (f : Files V) (i : Int) : Obs V :=
+  match (if 0 ≤ i then alook f i.toNat else none) with
+  | none => .err .missing
+  | some el => .scalar (.whole el)
+
+/-! ### container types -/
+
+def KE.isSlice : KE → Bool
+  | .slice .. => true
+  | .int _ => false
+
+/-- what kind of Python object an operation hands back -/
+inductive Container
+  | nothing        -- `None` (`dump`, `persist`)
+  | raised         -- an exception
+  | element        -- a stored element / atom, or the `numpy.ma.masked` constant
+  | maskedObject   -- `numpy.ma.MaskedArray`, dtype `object`
+  | maskedBool     -- `numpy.ma.MaskedArray`, dtype `bool`
+  | boolList       -- `list[bool]`
+  | bool
+deriving DecidableEq, Repr
+
+/-- the container of an observation (the driver prints it next to every array-shaped result) -/
+def Obs.container : Obs V → Container
+  | .unit => .nothing
+  | .err _ => .raised
+  | .scalar _ => .element
+  | .arr .. => .maskedObject
+  | .bools .. => .maskedBool
+  | .blist _ => .boolList
+  | .bool _ => .bool
+
+/-- the container an operation returns when it does not raise: a function of the operation alone (for `__getitem__`: of
+    whether the key holds a slice) — `_file.py:124-171`, `_dict.py:67-116` (with the DF-C07-container repair: a slice key
+    gives a `MaskedArray` in `DictArray` too), `to_array`, `mask`, `mask_linear`, `has_index`, `get_from_index` -/
+def Op.container : Op V → Container
+  | .dump .. => .nothing
+  | .get key => if key.any KE.isSlice then .maskedObject else .element
+  | .toArray _ => .maskedObject
+  | .mask => .maskedBool
+  | .maskLinear => .boolList
+  | .has _ => .bool
+  | .at _ => .element
+  | .persistReopen => .nothing
+
+/-! ### constructors -/
+
+/-- arguments of a storage-class constructor after `folder`: `shape`, `internal_shape=None`, `shape_mask=None` -/
+structure CArgs where
+  shape : List Nat
+  internal : Option (List Nat)
+  mask : Option (List Bool)
+deriving DecidableEq, Repr
+
+/-- what a constructor raises: `ValueError` (its own checks) or `TypeError` (`len(None)`) -/
+inductive CErr | value | type
+deriving DecidableEq, Repr
+
+/-- `FileArray.__init__` (`_file.py:50-62`) = `DictArray.__init__` (`_dict.py:37-47`; `SharedMemoryDictArray` delegates):
+    * `if internal_shape and shape_mask is None: raise ValueError`;
+    * `if internal_shape is not None and len(shape_mask) != len(shape) + len(internal_shape): raise ValueError`
+      (`len(None)` is a `TypeError` when `internal_shape == ()` comes without a mask);
+    * `shape_mask` defaults to `(True,) * len(shape)`, `internal_shape` to `()`.
+    Nothing else is checked: with `internal_shape=None` any mask is taken as it is. -/
+def construct (a : CArgs) : Except CErr Geom :=
+  match a.internal, a.mask with
+  | some (_ :: _), none => .error .value
+  | some [], none => .error .type
+  | some i, some m => if m.length ≠ a.shape.length + i.length then .error .value else .ok ⟨a.shape, i, m⟩
+  | none, some m => .ok ⟨a.shape, [], m⟩
+  | none, none => .ok ⟨a.shape, [], List.replicate a.shape.length true⟩
+
+/-- the one call site of the map runner, `_init_arrays` (`_run_info.py:361-372`):
+    `storage_class(path, external_shape_from_mask(shape, mask), internal_shape_from_mask(shape, mask), mask)` with the
+    `zip(shape, mask)` comprehensions of `_shapes.py:56-61` -/
+def initArrays (full : List Nat) (mask : List Bool) : CArgs :=
+  ⟨extOf mask full, some (intOf mask full), some mask⟩
+
+/-! ### the registry and the class flags the map runner reads -/
+
+/-- which operational model stands for a class -/
+inductive Backing | dict | files
+deriving DecidableEq, Repr
+
+/-- one entry of `storage_registry` (`_base.py:19,112-133`): key = `storage_id`, class name, the class attribute
+    `requires_serialization` and the property `dump_in_subprocess` -/
+structure Backend where
+  id : String
+  cls : String
+  requiresSerialization : Bool
+  dumpInSubprocess : Bool
+  backing : Backing
+deriving DecidableEq, Repr
+
+/-- the registry of an interpreter without zarr (`_dict.py:25,207-209,224,256-258,262-263`, `_file.py:38-39,264-266,288`) -/
+def registry : List Backend :=
+  [ ⟨"dict", "DictArray", false, false, .dict⟩,
+    ⟨"file_array", "FileArray", true, true, .files⟩,
+    ⟨"shared_memory_dict", "SharedMemoryDictArray", true, true, .dict⟩ ]
+
+/-- `_update_array` (`_run.py:502-527`): the call made in the worker (`in_post_process = False`) or in the parent's
+    post-processing (`True`) dumps iff `force_dump or (array.dump_in_subprocess != in_post_process)` -/
+def dumpsHere (b : Backend) (inPostProcess force : Bool) : Bool := force || (b.dumpInSubprocess != inPostProcess)
+
+/-- `_maybe_run_folder` (`_run_info.py:225-233`): without a `run_folder` a temporary one is made iff the storage
+    `requires_serialization` -/
+def getsTempFolder (b : Backend) (runFolderGiven : Bool) : Bool := !runFolderGiven && b.requiresSerialization
+
+/-- `get_storage_class` (`_base.py:183-207`): `ValueError` for an unknown identifier -/
+def getStorageClass (id : String) : Except Err Backend :=
+  match registry.find? (fun b => b.id = id) with
+  | some b => .ok b
+  | none => .error .value
+
+/-! ### several processes dumping into one `FileArray` folder -/
+
+/-- one completed `dump` of one element by writer process `w`: `_utils.dump` writes `.__cell__.pickle.<pid>.tmp` completely
+    and `os.replace`s it onto `__cell__.pickle` — one atomic event on the folder -/
+structure WEv (V : Type) where
+  w : Nat
+  cell : Nat
+  val : List V
+deriving Repr
+
+def applyW (f : Files V) (e : WEv V) : Files V := ains f e.cell e.val
+
+/-- the folder after a trace (any interleaving of the writers' programs) of atomic dumps -/
+def runW (f : Files V) (t : List (WEv V)) : Files V := t.foldl applyW f
+
+/-- the program-order subsequence of writer `w` -/
+def projW (t : List (WEv V)) (w : Nat) : List (WEv V) := t.filter (fun e => e.w = w)
+
+/-- the last value a trace writes to `cell` -/
+def lastTo : List (WEv V) → Nat → Option (List V)
+  | [], _ => none
+  | e :: t, c =>
+    match lastTo t c with
+    | some v => some v
+    | none => if e.cell = c then some e.val else none
 
 end PF.St
